@@ -11,6 +11,10 @@ byte layout, byte-wise classification, the concrete glibc IPv4 text functions `n
 "creation succeeds exactly for what the platform accepts") answers differently, the line is
 suffixed with ` SPECDIFF <spec answer>`.  A model-predicted out-of-bounds access prints `fault` and stops.
 
+`tonativebig` / `fromnativebig` (stated lengths 64 … 2^33; the harness owns one mapping of that size): the answer is
+computed from the first 64 bytes — `PV.Props.C17.to_native_length_monotone` / `from_native_length_monotone` say that
+this is the model's answer for the stated length (result, first 64 bytes, everything behind them untouched).
+
 The ops `ntop6` / `ntop4` / `pton` do not involve the library: the harness answers with the real `inet_ntop` /
 `inet_pton` / `getaddrinfo`, this driver with their Lean model (`PV.Model.Inet6Text`, `ntop4`/`pton4`). -/
 namespace PV.Driver.SockAddr
@@ -199,6 +203,28 @@ def step (_ : Unit) (toks : List String) : IO (Unit × Bool) := do
       | some dl => return ((), ← finish (toNativeOp a dl) (some (.ok (specToNativeOp a dl))))
       | none => bad
     | _ => bad
+  | "tonativebig" :: rest =>
+    match parseAddr rest with
+    | some (a, [dl]) =>
+      match natTok dl (2 ^ 33) with
+      | some dl =>
+        if dl < 64 then bad else
+        -- `to_native_length_monotone` (k = 64, n = dl): TRUE, the first 64 bytes are those of the conversion into 64
+        -- bytes, everything from byte 64 on is as it was
+        let m : Res String := do
+          let r ← toNativeOp a 64
+          return if r.startsWith "ok " then r ++ " rest=clean" else r
+        return ((), ← finish m (some (.ok (specToNativeOp a 64 ++ " rest=clean"))))
+      | none => bad
+    | _ => bad
+  | ["fromnativebig", h, dl] =>
+    match bytesOfHex h, natTok dl (2 ^ 33) with
+    | some b, some dl =>
+      if dl < 64 || b.length > 64 then bad else
+      -- `from_native_length_monotone` (k = 64, len = dl) on the buffer `b ++ zeros`
+      let b64 := b ++ List.replicate (64 - b.length) 0
+      return ((), ← finish (newFromNative b64 64 >>= dumpOpt false) (some (dumpOpt true (Spec.decode b64 64))))
+    | _, _ => bad
   | "setfs" :: rest =>
     match parseAddr rest with
     | some (a, [f, s]) =>
